@@ -3136,7 +3136,13 @@ func cvtFloat(v Value, t Type) Value {
 		// Don't do any conversion if both types have underlying type float32.
 		// This avoids converting to float64 and back, which will
 		// convert a signaling NaN to a quiet NaN. See issue 36400.
-		return makeFloat32(v.flag.ro(), v.ptr, t)
+		// The result keeps the float32 bits in ptr itself (as makeFloat does), so an
+		// indirect operand must be loaded first.
+		ptr := v.ptr
+		if v.flag&flagIndir != 0 {
+			ptr = unsafe.Pointer(uintptr(*(*uint32)(v.ptr)))
+		}
+		return makeFloat32(v.flag.ro(), ptr, t)
 	}
 	return makeFloat(v.flag.ro(), v.Float(), t)
 }
